@@ -147,6 +147,25 @@ CLAIMED["C02"] = {
     "design": "DESIGN.md section 4 C02",
 }
 
+CLAIMED["C09"] = {
+    "text": "Rocq theorems over an ownership/effect model of execute() bodies (objects with an observable and a hidden part; bind to "
+            "new/alias/may-alias, in-place write, clamp, sequence, branch, loop; nondeterministic big-step semantics): a static "
+            "may-alias check is proved sound for every execution (check_sound: any branch, any number of loop iterations, any "
+            "aliasing the tags allow), hence a body that passes leaves the observable part of EVERY object that existed on entry "
+            "unchanged (C09_body), and so does any sequence of consumer executions in any order, any number of times "
+            "(C09_history, by induction over the sequence). The IR of all 36 execute() bodies of the built-in libraries (callees "
+            "inlined: super().execute, mixins, helpers) is regenerated from the AST of /repo on every run and the obligation "
+            "'every body passes' is decided by vm_compute (C09_all_bodies_pass). Tied dynamically: snapshot histories over a "
+            "growing pool of results, and observed result/input memory sharing checked against the alias sets the check derives.",
+    "note": "Trusted: the translator drivers/gen_effects.py (Python syntax -> tags) and its tables of numpy/stdlib API facts "
+            "(view-returning functions, in-place methods; unknown methods are treated as in-place writes, unknown constructs as "
+            "SUnknown = rejected); insure_fuzzy summarised as the clamp; CPython's fresh **kwargs dict. Premise of the theorems: "
+            "inputs declared fuzzy are within [-1, 1] (C04). The dynamic alias validation already corrected one table entry "
+            "(numpy.ma unary minus shares its operand's mask).",
+    "technique": "Rocq proof (soundness of a may-alias ownership analysis) + effect IR regenerated from the AST + dynamic snapshot/alias validation",
+    "design": "DESIGN.md section 4 C09",
+}
+
 NOT_YET = "check not built yet (planned with the same technique, see DESIGN.md section 4); not claimed in this commit"
 
 
